@@ -396,8 +396,8 @@ pub fn run(ctx: &RunCtx) -> i32 {
         exhaustive: true,
     };
     let (pl, sl) = match ctx.tier {
-        Tier::Quick => (5usize, 6usize),
-        Tier::Thorough => (7, 8),
+        Tier::Quick => (6usize, 7usize),
+        Tier::Thorough => (8, 9),
     };
     let pats = all_strings(&['a', 'b', '*', '?'], pl);
     let inputs = all_strings(&['a', 'b'], sl);
